@@ -1082,6 +1082,24 @@ def run_definition(ctx: Ctx | None, defn: dict, insts: list, kinds: tuple = FORM
         if ctx is not None:
             ctx.case(digest({"defn": stripped}), nt, cls="build-failed", sample=sample_of(defn, None))
         raise
+    if defn.get("defaults") and not defn.get("lib"):
+        # a sibling definition - same field names, same defaulted names, other default values (e.g. a request and its
+        # response) - is compiled and used AFTER this one: what is generated for one definition must not leak into
+        # another
+        sib = _variant_defaults(defn, -1)
+        for kind in kinds:
+            if kind in ("interp", "twin", "shipped") or kind not in forms:
+                continue
+            try:
+                f2 = Forms(kind)
+                c2 = f2.cls(sib)
+                if kind == "dataclass":
+                    _probe_dataclasses(f2, c2)
+                given = len(sib["names"]) - len(sib["defaults"])
+                if given == 0:
+                    c2()
+            except Exception:  # noqa: BLE001 - the sibling is only there to disturb; its own faults are not judged here
+                pass
     first: Violation | None = None
     for inst in insts:
         case = {"defn": stripped, "inst": inst}
